@@ -81,7 +81,7 @@ HARNESSES += [framed_shape(ShapeEvaluateH), framed_shape(ShapeNegateH), framed_s
 # process-wide caches: key soundness (DESIGN 3.5: input-free obligation kind `cache-key`)
 # ------------------------------------------------------------------------------------------------------------------
 import ast
-from pyvc.engine import FrameViolation
+from pyvc.engine import FrameViolation, NotRecognised
 from pyvc.sym import Unsupported
 
 
@@ -113,15 +113,25 @@ class CacheKeyH(Harness):
                     for dec in fn.decorator_list:
                         txt = ast.unparse(dec)
                         if "lru_cache" in txt or txt.endswith("functools.cache") or txt == "cache":
-                            found.append((mname, getattr(cls, "name", "<module>"), fn.name, fn.lineno, txt))
+                            first = fn.args.args[0].arg if fn.args.args else None
+                            is_method = isinstance(cls, ast.ClassDef) and first == "self" and \
+                                not any(ast.unparse(d) in ("staticmethod", "classmethod") for d in fn.decorator_list)
+                            keyed_by_proposition = is_method and mname in ("puan", "puan.logic.plog", "puan.modules.configurator")
+                            found.append((mname, getattr(cls, "name", "<module>"), fn.name, fn.lineno, txt, keyed_by_proposition))
         return found
 
     def ensures(self, c, st, res):
         out = [("cache-key.scan", True)]
-        for mname, cls, fn, line, txt in res:
-            out.append((f"cache-key[{mname}:{cls}.{fn}]",
-                        FrameViolation(f"{txt} at {mname}:{line}: the key is the receiver's (__hash__, __eq__), which identify "
-                                       f"differently defined propositions (lemma key_collision: refuted)")))
+        for mname, cls, fn, line, txt, keyed in res:
+            if keyed:
+                out.append((f"cache-key[{mname}:{cls}.{fn}]",
+                            FrameViolation(f"{txt} at {mname}:{line}: the key is the receiver's (__hash__, __eq__), which identify "
+                                           f"differently defined propositions (lemma key_collision: refuted)")))
+            else:
+                # a memoised function whose key is not a proposition / configurator receiver: whether the key determines
+                # the result cannot be read off the source; the history stand-ins decide
+                out.append((f"cache-key[{mname}:{cls}.{fn}]",
+                            NotRecognised(f"{txt} at {mname}:{line}: memoised function not keyed by a proposition receiver")))
         return out
 
 
